@@ -35,3 +35,11 @@ Theorem C10_collection_merge_perm_invariant :
   collection_merge o ds' inc strict = collection_merge o ds inc strict.
 Proof. exact collection_merge_perm. Qed.
 Print Assumptions C10_collection_merge_perm_invariant.
+(* Beyond the property's quantifier (distinct IDs): the sort is stable like Python's sorted(),
+   so readers with equal message IDs keep the order in which they were supplied - with the
+   two theorems above this determines the sorted list for every input. *)
+Theorem C10_sort_stable :
+  forall (k : N) (l : list reader),
+  filter (has_mid k) (sort_readers l) = filter (has_mid k) l.
+Proof. exact sort_readers_stable. Qed.
+Print Assumptions C10_sort_stable.
